@@ -1,12 +1,17 @@
-import Cbor.Lemmas.CountsOps
+import Cbor.Lemmas.CopyFrame
 /-!
 # C11 — cbor_copy yields an equal, fully independent tree and leaves the source intact
 
 Over the heap-level model (`Heap.copy` mirrors `cbor_copy` in src/cbor.c case by case, including its
-clean-up paths).  Proved here: the non-recursive cases (integers of every width, floats, simple values,
-definite strings — the leaves every tree is made of).  The recursive cases (containers, tags, chunked
-strings) are decided by the history correspondence and the harness's address-set / mutation checks; see
-DESIGN.md.
+clean-up paths).  Proved here, for every tree, every heap whose books are in order and every allocator oracle:
+* `C11_source_intact`: the copy — successful or not — leaves every pre-existing item (the source tree and
+  everything else) exactly as it was, contents *and* reference counts; a successful copy's root is a new item,
+  and every new item refers to new items only, so the copy shares no node with anything that existed before;
+* `C11_books`: after a successful copy the reference-count invariant holds with the client owning exactly one
+  more reference, the copy's root;
+* `copy_scalar`, `copy_string`: the exact result for leaves (same type, width, value / bytes, count 1).
+That the copy *denotes the same value* as the source (`val`) for containers, tags and chunked strings is decided
+by the history correspondence and the harness's dump / serialization / mutation checks; see DESIGN.md.
 -/
 namespace Props.C11
 open Heap
@@ -64,5 +69,34 @@ theorem copy_leaf_source_intact (ω : Oracle) (f : Nat) (h : H) (r : Ref) (c : C
       · simp only [H.get]; rw [List.getElem?_append_left hx]
       · rfl
     · rfl
+
+/-- **Independence.**  In a heap whose books are in order (`Counts`), `cbor_copy` of a live item — whether it
+succeeds or fails, whatever the allocator refuses — leaves every item that existed before exactly as it was; a
+successful copy's root did not exist before; and no item created by the copy refers to an item that existed
+before.  Hence either tree can afterwards be modified or released without any effect on the other. -/
+theorem C11_source_intact (ω : Oracle) (h : H) (own : Ref → Nat) (hc : Counts h own) (r : Ref) (c : Cell) (hg : h.get r = some c) :
+    (∀ x, x < h.cells.length → (h.copy ω r).2.get x = h.get x) ∧
+    (∀ r', (h.copy ω r).1 = some r' → h.cells.length ≤ r') ∧
+    (∀ p cp, h.cells.length ≤ p → (h.copy ω r).2.get p = some cp → ∀ x ∈ cp.node.children, h.cells.length ≤ x) := by
+  have hnd : ∀ p c, h.get p = some c → ∀ x ∈ c.node.children, x < h.cells.length := by
+    intro p cp hgp x hx
+    have hx' := hc x
+    cases hgx : h.get x with
+    | none =>
+      rw [hgx] at hx'
+      have h1 := count_children_le h p cp hgp x
+      have h2 : 0 < cp.node.children.count x := List.count_pos_iff.mpr hx
+      omega
+    | some cx => exact get_lt hgx
+  have := (copy_frame_all ω h.cells.length h (fun p c _ hgp => hnd p c hgp) h.copyFuel).1 h r (Fr.refl h) (get_lt hg)
+  exact ⟨this.1.2.1, this.2, this.1.2.2⟩
+
+/-- **The books after a copy.**  On success the client owns one more reference — the copy's root — and every count
+is again exactly the number of references; on failure nothing is owed to anyone. -/
+theorem C11_books (ω : Oracle) (h : H) (own : Ref → Nat) (hc : Counts h own) (r : Ref) (hf : (h.copy ω r).2.fault = false) :
+    match (h.copy ω r).1 with
+    | some r' => Counts (h.copy ω r).2 (bump own r' 1)
+    | none => Counts (h.copy ω r).2 own :=
+  (copy_counts_all ω h.copyFuel).1 h r own hc hf
 
 end Props.C11
